@@ -12,13 +12,17 @@ def _is_eval_closed():
     machine.  Shim: after each eval_expr, remove the flag again unless the
     value contains no identifier a state could still bind."""
     import miasmx.expression.expression_eval_abstract as V
-    from miasmx.expression.expression import get_expr_ids
+    from miasmx.expression.expression import get_expr_ids, ExprId
     if getattr(V.eval_abs, '_verif_shim_is_eval', False):
         return
     orig = V.eval_abs.eval_expr
     def eval_expr(self, e, eval_cache):
         ret = orig(self, e, eval_cache)
         d = getattr(ret, '__dict__', None)
+        if ret is e and not isinstance(ret, ExprId):
+            # the pinned code hands the caller's own object back only for identifiers, constants and Top; a flag on
+            # a caller's COMPOSITE expression is not this finding and is left in place so that it is reported
+            return ret
         if d is not None and d.get('is_eval') and not ret.is_term:
             try:
                 open_ids = [i for i in get_expr_ids(ret) if not i.is_term]
